@@ -337,11 +337,14 @@ func txShapes() []Tx {
 		{Acc: []Access{{Name: "A1", RO: true}, {Name: "A1", RO: true}}},
 		{Acc: []Access{{Name: "A2"}, {Name: "A1", FFails: true}}},
 		{Acc: []Access{{Name: "A2", RO: true}, {Name: "A1", RO: true}}},
+		// not a shape the shard produces (a write batch accesses each cache once), but
+		// inside the property's quantifier: the same cache written twice by one transaction
+		{Acc: []Access{{Name: "A1"}, {Name: "A1"}}},
 	}
 }
 
 func master(cfg *harness.Config, rep *harness.Report) {
-	rep.Rule = "programs: all unordered pairs (quick) / pairs and selected triples (thorough) of 12 transaction shapes (read-only / writing accesses to caches A1, A2 of shard A and B1 of shard B, failing callback, failing constructor, storage abort, two-access transactions) x evictor thread {none, Release(A1)} x manager size {-1, 0, 1 (< one object), 10 (one object fits, two do not)} x initial map {empty, A1 present}; for each program every interleaving of the threads at the scheduling points (every Lock/RLock/TryRLock/Unlock and atomic.Bool op of the real manager.go via shims, callback entry/exit, constructor, storage begin/end, eviction) with at most `bound` preemptions, iterated 0..bound; monitors: isolation, no uncommitted state observed, scrapped caches never handed out, shared caches reflect committed storage, no deadlock, final probe can write and commit every cache. states = distinct observable outcomes; transitions = scheduler steps; traces = complete executions (all on the real code)"
+	rep.Rule = "programs: all unordered pairs (quick) / pairs and selected triples (thorough) of 13 transaction shapes (read-only / writing accesses to caches A1, A2 of shard A and B1 of shard B, failing callback, failing constructor, storage abort, two-access transactions incl. the same cache written twice) x evictor thread {none, Release(A1)} x manager size {-1, 0, 1 (< one object), 10 (one object fits, two do not)} x initial map {empty, A1 present}; for each program every interleaving of the threads at the scheduling points (every Lock/RLock/TryRLock/Unlock and atomic.Bool op of the real manager.go via shims, callback entry/exit, constructor, storage begin/end, eviction) with at most `bound` preemptions, iterated 0..bound; monitors: isolation, no uncommitted state observed, scrapped caches never handed out, shared caches reflect committed storage, no deadlock, final probe can write and commit every cache. states = distinct observable outcomes; transitions = scheduler steps; traces = complete executions (all on the real code)"
 	rep.Assumptions = []string{"the storage layer is a stand-in: per-shard committed counter and single-writer token taken before the first access and released before cacheTx.Commit, as Shard.InsertPoints orders it", "usage protocol: every With of a transaction returns before its Commit (the overlap is defect F4, covered under C07)", "memory model: sequentially consistent interleavings of the shimmed operations"}
 	p := pool.New(pool.Options{CPUsPerWorker: 1, JobTimeout: 300 * time.Second})
 	if cfg.Replay != "" {
